@@ -477,6 +477,12 @@ class Explorer(object):
                 r = {'sdiv': int(x / y), 'udiv': x // y, 'srem': x - int(x / y) * y, 'urem': x % y}[op]
             if r is not None:
                 return ('c', _norm(r, w))
+        if op == 'xor' and is_const(b) and b[1] in (1, -1) and a[0] == 'icmp':
+            # logical not of a comparison ("!x" compiled as xor i1 %c, true)
+            inv_ = {'eq': 'ne', 'ne': 'eq', 'slt': 'sge', 'sge': 'slt', 'sgt': 'sle', 'sle': 'sgt',
+                    'ult': 'uge', 'uge': 'ult', 'ugt': 'ule', 'ule': 'ugt'}.get(a[1])
+            if inv_:
+                return ('icmp', inv_, a[2], a[3])
         if op == 'and' and (b == C0 or a == C0):
             return C0
         if op == 'and' and is_const(a) and not is_const(b):
@@ -783,10 +789,15 @@ class Explorer(object):
     def _assume(self, st, c, truth, ins):
         st.decided[c] = truth
         # a boolean that was materialised as an integer and tested again: (cond != 0) is cond
-        while c[0] == 'icmp' and c[1] in ('ne', 'eq') and c[3] == C0 and c[2][0] == 'icmp':
+        def _inner(v):
+            # the materialised form of a condition: (zext/sext of) an icmp
+            while v[0] == 'bin' and v[1] in ('zext', 'sext', 'trunc') and len(v) > 2:
+                v = v[2]
+            return v
+        while c[0] == 'icmp' and c[1] in ('ne', 'eq') and c[3] == C0 and _inner(c[2])[0] == 'icmp':
             if c[1] == 'eq':
                 truth = not truth
-            c = c[2]
+            c = _inner(c[2])
             st.decided[c] = truth
         st.assume.append((c, truth, ins))
         if c[0] == 'icmp' and c[1] in ('eq', 'ne'):
